@@ -42,6 +42,7 @@ func C16TinyAddr(i int) types.Address {
 type c16StakeOpt struct {
 	nVal    int  // 3 or 6 online validators
 	full    bool // + candidate C16StakeFullID with 1000 stakes and a matured-next-block move of exactly the smallest stake
+	fullSTK bool // (with full) the smallest stake of the full candidate is a custom-coin stake (0.001 STK, worth far less than 10 BIP)
 	many    bool // 101 candidates, validator 3 (exactly 1000 BIP) ranked 101st
 	pending bool // frozen funds due at blocks 2 and 3, a stake lock ending at block 2
 	noMove  bool // (with many) leave out the genesis move: moves are made by transactions only
@@ -140,6 +141,10 @@ func c16StakeGenesis(o c16StakeOpt) *types.AppState {
 			v := e18(int64(10 + i))
 			if i == 2 {
 				v = e18(11)
+			}
+			if i == 0 && o.fullSTK {
+				st = append(st, c16CoinStake(C16TinyAddr(0), C16StakeCoin, I("1000000000000000")))
+				continue
 			}
 			st = append(st, Stake(C16TinyAddr(i), v))
 		}
@@ -291,6 +296,17 @@ func init() {
 			c16Delegate("tiny0 adds 1 BIP to its own smallest stake in c5", t0, p5, 0, e18(1)),
 			c16Unbond("tiny0 unbonds its 10 BIP from c5", t0, p5, 0, e18(10)),
 			c16MoveStake("d2 move 11 BIP c2->full c5", d2, Pub(2), p5, 0, e18(11)),
+		}
+	}))
+	// the full candidate's smallest stake is a custom-coin stake: the delegator it loses its slot to
+	// sends it to the wait list with its full value IN ITS COIN
+	Register("stakefullcoin", c16StakeWorld(c16StakeOpt{nVal: 3, full: true, fullSTK: true}, func(w *World) []Tx {
+		d1, d2 := K("d1"), K("d2")
+		p5 := Pub(5)
+		return []Tx{
+			c16Delegate("d1 delegate 12 BIP to full c5 (replaces the 0.001 STK stake)", d1, p5, 0, e18(12)),
+			c16Delegate("d2 delegate 11 BIP to full c5", d2, p5, 0, e18(11)),
+			c16Unbond("tiny0 unbonds its 0.001 STK from c5", K("tiny0"), p5, C16StakeCoin, I("1000000000000000")),
 		}
 	}))
 	Register("stakemany", c16StakeWorld(c16StakeOpt{nVal: 3, many: true}, func(w *World) []Tx {
